@@ -2600,6 +2600,11 @@ class _FormatInferInstance(Visitor):
         self._visit_binding(stmt, stmt.target, iter_fmt.elt)
 
         def iterate():
+            # the loop walks the list object, so an element the body stored
+            # on an earlier iteration is what a later one binds
+            fmt = self._visit_expr(stmt.iterable, ctx)
+            assert isinstance(fmt, ListFormat)
+            self._visit_binding(stmt, stmt.target, fmt.elt)
             self._visit_block(stmt.body, ctx)
 
         # If the iterable's length is statically known, drive the phi
